@@ -8,7 +8,10 @@ Definition hb (c : N) : bytes := [c].
 
 Record hcodemod := {
   hc_id : N;
+  hc_pipe : pipe_kind;              (* libcst / regex / XML transformer pipeline *)
+  hc_base : base_kind;              (* FindAndFixCodemod / RemediationCodemod (file selection) *)
   hc_det : det_kind;
+  hc_R : list (N * list N);         (* SAST-driven: findings of the codemod's rules per path (from the tool result file) *)
   hc_T : list (N * (N * list N));   (* content -> (new content, dependencies requested); one change reported *)
   hc_raise : list N;                (* contents on which the transformer raises *)
   hc_flag : list N;                 (* contents in which the codemod's own semgrep rule has a match *)
@@ -24,7 +27,7 @@ Record hcase := {
   hx_W : list (N * list N * N);               (* (manifest content, new names) -> new manifest content *)
   ob_status : Z;
   ob_fs : list (N * N);                       (* observed path -> content after the run *)
-  ob_rows : list (N * list N * list N);       (* per result, in order: codemod, change-set paths, failedFiles *)
+  ob_rows : list (N * list N * list N * list N);   (* per result, in order: codemod, change-set paths, failedFiles, paths of unfixedFindings *)
 }.
 
 Definition memN (x : N) (l : list N) : bool := existsb (N.eqb x) l.
@@ -51,7 +54,11 @@ Section Inst.
     | Some h => if memN (head_or b) (hc_flag h) then [[1%N]] else []
     | None => []
     end.
-  Definition h_R (K : codemod) : list (path * list finding) := [].
+  Definition h_R (K : codemod) : list (path * list finding) :=
+    match h_find K with
+    | Some h => map (fun e => (hb (fst e), map hb (snd e))) (hc_R h)
+    | None => []
+    end.
   Definition h_diff (a b : bytes) : str := if str_eqb a b then [] else [1%N].
   Definition h_W (k : skind) (content : option bytes) (ds : list dep) : option (bytes * str * list change) :=
     match content with
@@ -65,7 +72,7 @@ Section Inst.
   Definition h_cfg : config :=
     {| dry_run := hx_dry c; all_files := map hb (hx_files c); ff_paths := map hb (hx_files c); scan_all := map hb (hx_files c) |}.
   Definition h_Ks : list codemod :=
-    map (fun h => {| cid := hb (hc_id h); cpipe := PLibcst; cdet := hc_det h; cbase := FindAndFix; cavail := true |}) (hx_codemods c).
+    map (fun h => {| cid := hb (hc_id h); cpipe := hc_pipe h; cdet := hc_det h; cbase := hc_base h; cavail := true |}) (hx_codemods c).
   Definition h_fs : fsys := map (fun e => (hb (fst e), hb (snd e))) (hx_fs c).
   Definition h_stores : list store :=
     map (fun e => {| st_kind := fst (fst e); st_path := hb (snd (fst e)); st_deps := map hb (snd e) |}) (hx_stores c).
@@ -74,14 +81,15 @@ Section Inst.
 End Inst.
 
 Definition opt_bytes_eqb := option_eqb str_eqb.
-Definition rows_of (c : hcase) (r : run_result) : option (list (N * list N * list N)) :=
+Definition rows_of (c : hcase) (r : run_result) : option (list (N * list N * list N * list N)) :=
   match report (h_Ks c) r with
   | None => None
   | Some rows => Some (map (fun row => (head_or (r_codemod row), map (fun cs => head_or (cs_path cs)) (r_changeset row),
-                                        map head_or (r_failed row))) rows)
+                                        map head_or (r_failed row),
+                                        map (fun u => head_or (snd (fst (fst u)))) (r_unfixed row))) rows)
   end.
-Definition row_eqb : (N * list N * list N) -> (N * list N * list N) -> bool :=
-  pair_eqb (pair_eqb N.eqb (list_eqb N.eqb)) (list_eqb N.eqb).
+Definition row_eqb : (N * list N * list N * list N) -> (N * list N * list N * list N) -> bool :=
+  pair_eqb (pair_eqb (pair_eqb N.eqb (list_eqb N.eqb)) (list_eqb N.eqb)) (list_eqb N.eqb).
 
 (** MODEL vs IMPLEMENTATION: status, every observed path's final content, the report rows *)
 Definition run_model_ok (c : hcase) : bool :=
